@@ -174,10 +174,11 @@ func (s *vpSession) ProcessAuthenticateMessage(am *ntlm.AuthenticateMessage) err
 	// empty challenge (vpClientSess == -1)
 	rightChallenge := vpOr(vpAnd(s.challenged, s.id == vpClientSess), vpAnd(!s.challenged, vpClientSess == -1))
 	ok := vpAnd(sameUser, vpAnd(vpPwId(s.keyPw) == vpProofPwId, rightChallenge))
-	// go-ntlm can panic while it derives the session keys, i.e. after it verified the response and with
-	// the response key already cached (e.g. KEY_EXCH with an empty encrypted session key)
-	if ok && vpBool("library-panics-deriving-keys-"+vpItoa(vpReqNo)) {
-		panic("vp: go-ntlm: slice bounds out of range (key exchange)")
+	// go-ntlm can panic in here: before it compares anything (an authenticate message in the short layout
+	// has no session-key field, which ProcessAuthenticateMessage dereferences first) or while it derives
+	// the session keys after it verified the response, the response key already cached
+	if vpBool("library-panics-"+vpItoa(vpReqNo)) {
+		panic("vp: go-ntlm: runtime error inside ProcessAuthenticateMessage")
 	}
 	if ok {
 		return nil
